@@ -109,6 +109,18 @@ class _Api:
         self._sse_heartbeat_interval = heartbeat
 
 
+# how a dropped connection surfaces in the reader: httpx's own transport errors (httpcore-based transports), or the builtin ConnectionError
+# family / a decoding error (in-process ASGI transport, custom transports, a compressed stream that is cut)
+_DROP_KINDS = [lambda: httpx.ReadError("connection dropped"), lambda: httpx.RemoteProtocolError("peer closed connection"),
+               lambda: ConnectionResetError("connection reset by peer"), lambda: BrokenPipeError("broken pipe"),
+               lambda: httpx.DecodingError("incomplete compressed stream"), lambda: ConnectionAbortedError("aborted")]
+_DROP: List[int] = [0]
+
+
+def _drop_exception() -> Exception:
+    return _DROP_KINDS[_DROP[0]]()
+
+
 class _Resp:
     """The response object of one connection.  `keep` = number of complete lines the connection delivers before it
     dies (None: healthy); `cut` = the same fault given as a CHARACTER offset into the body (a line is delivered iff its
@@ -137,9 +149,9 @@ class _Resp:
             for ln in parts:
                 off = off + len(ln) + 1  # offset just after this line's newline
                 if self._keep is not None and self.lines_delivered >= self._keep:
-                    raise httpx.ReadError("connection dropped")
+                    raise _drop_exception()
                 if self._cut is not None and off > self._cut:
-                    raise httpx.ReadError("connection dropped")
+                    raise _drop_exception()
                 self.lines_delivered += 1
                 yield ln + "\n"
         if buf:
@@ -420,3 +432,31 @@ def ob_ids_crossing_ten(c0: int, nd: int, d1: int, d2: int) -> bool:
 
 C10LO = B(7, 6)
 ND10 = B(1, 2)
+
+
+
+@obligation(quick=150, thorough=300, partitions_quick=[f"kind == {k}" for k in range(len(_DROP_KINDS))],
+            partitions_thorough=[f"kind == {k} and c0 == {c}" for k in range(len(_DROP_KINDS)) for c in (-1, 0, 1)],
+            what="a dropped connection is a dropped connection however it surfaces in the reader — httpx.ReadError / RemoteProtocolError "
+                 "(httpcore transports), ConnectionResetError / BrokenPipeError / ConnectionAbortedError (in-process and custom transports), "
+                 "httpx.DecodingError (a compressed stream that is cut): the client resumes from its cursor and every later event arrives "
+                 "exactly once, in order",
+            bounds={"events": 3, "cursor c0": "-1..1", "faults": "1 (thorough 2)", "fault": "lines delivered before the drop 0..3*(events after the cursor)",
+                    "exception kinds": len(_DROP_KINDS)})
+def ob_drop_exception_kinds(kind: int, c0: int, nd: int, d1: int, d2: int) -> bool:
+    """
+    pre: 0 <= kind < len(_DROP_KINDS) and -1 <= c0 <= 1 and 1 <= nd <= NDK17
+    pre: 0 <= d1 <= 3 * (2 - c0) and 0 <= d2 <= 3 * (2 - c0) and (nd >= 2 or d2 == 0)
+    post: _
+    """
+    kind = _concrete(kind, 0, len(_DROP_KINDS) - 1)
+    c0 = _concrete(c0, -1, 1)
+    faults = [_concrete(d1, 0, 9), _concrete(d2, 0, 9)][:_concrete(nd, 1, 2)]
+    _DROP[0] = kind
+    try:
+        return _run(3, c0, False, -1, 2, faults, live_from=3, gaps=[], heartbeat=25.0)
+    finally:
+        _DROP[0] = 0
+
+
+NDK17 = B(1, 2)
